@@ -513,6 +513,9 @@ class ApiRun:
                 if not consume_ok:
                     expr = (f"match dispatch {variant} {sv} {cm}, {me} with Some st, Some m => String.eqb (st_path st) {coq.s(npath)} && "
                             f"Nat.eqb (requests_on_wire m {n_given}) {nreq} | _, _ => false end")
+                if known == "stubs.rpc_names_equal_after_snake_case":
+                    # another RPC's body runs: only where the call goes is compared
+                    expr = f"match dispatch {variant} {sv} {cm} with Some st => String.eqb (st_path st) {coq.s(npath)} | None => false end"
                 self.checks.append((f"T2 {self.tag}.{m.name} {variant} {sp}: path, request count and result = model", expr))
             elif known is None:
                 ctx.oblige(f"T2 {self.tag}.{m.name} {variant} {sp}: outcome is one the model knows", False, json.dumps(o.get("error"))[:300], "T2")
@@ -650,12 +653,9 @@ Definition result_eqb (a b : result) : bool :=
   | _, _ => false
   end.
 Definition RetOther := RetError.
-(* a class body keeps the last definition of a name: the methods a reader of the class sees *)
-Fixpoint dedup_cms (l : list client_method) : list client_method :=
-  match l with
-  | [] => []
-  | c :: l' => if existsb (fun d => String.eqb (cm_name d) (cm_name c)) l' then dedup_cms l' else c :: dedup_cms l'
-  end.
+(* a class body keeps the last definition of a name, at the position of the first: the methods a reader of the class sees *)
+Definition dedup_cms (l : list client_method) : list client_method :=
+  map snd (fold_left (fun acc c => od_put (cm_name c) c acc) l []).
 """
 
 
